@@ -211,8 +211,9 @@ def collinear_reproducer(ctx):
                                 "density": [at, at111], "continuous_limit_event0": lim})
 
 
-def metamorphic(ctx, rnd, tag, cfg, p4, cases, parity_ok=True, swap=None, nmass=2):
-    """densities at p and Lambda p on the implementation, certified close; invariant masses tied to the model"""
+def metamorphic(ctx, rnd, tag, cfg, p4, cases, parity_ok=True, swap=None, nmass=2, light=False):
+    """densities at p and Lambda p on the implementation, certified close; invariant masses tied to the model
+    (light: only the finite/non-negative and frame-invariance layers - the vertex, geometry and mass layers are tied on the other scenarios)"""
     from tf_pwa.config_loader import ConfigLoader
     config = ConfigLoader(cfg)
     amp = config.get_amplitude()
@@ -221,11 +222,14 @@ def metamorphic(ctx, rnd, tag, cfg, p4, cases, parity_ok=True, swap=None, nmass=
     if min_abs_sin_beta(data) < 1e-6:  # stated exclusion rule (helicity axes degenerate: OPEN finding collinear_subdecay_axes)
         ctx.count("excluded:collinear_vertex")
         return None
-    with amplayers.VertexCapture() as cap:
-        rho = np.array(amp(data))
-    nev = len(rho)
-    VCASES.extend(amplayers.vertex_cases(ctx, tag, cap, [0], rnd, max_comp=3, meta0={"config": cfg}))
-    geometry_cases(ctx, rnd, tag, config, cfg, p4, data, min(nev, 2))
+    if light:
+        rho = np.array(amp(data)); nev = len(rho); nmass = 0
+    else:
+        with amplayers.VertexCapture() as cap:
+            rho = np.array(amp(data))
+        nev = len(rho)
+        VCASES.extend(amplayers.vertex_cases(ctx, tag, cap, [0], rnd, max_comp=3, meta0={"config": cfg}))
+        geometry_cases(ctx, rnd, tag, config, cfg, p4, data, min(nev, 2))
     meta0 = {"config": cfg, "params": {k: float(v) for k, v in pars.items()}, "events": {k: v.tolist() for k, v in p4.items()}}
     for e in range(nev):
         ok = math.isfinite(rho[e]) and rho[e] >= 0
@@ -329,7 +333,7 @@ def run(ctx):
     rnd = random.Random(ctx.seed * 1000003 + 1)
     ctx.rule = ("spin-0 three-chain configs: closed-form layers at p and at Lambda p for Lambda in {rotation, boost(|v|<=0.9), rot+boost, inversion}; spinful: spin-1/2 weak decay, "
                 "vector->vector+2 scalars, vector->3 scalars through all three pairings (spins 1,2,1), 4-body vector->4 scalars via (VV) and (A->V) cascades, identical spin-0 pair, three identical spin-1 and three identical spin-1/2 particles (all permutations), identical spin-1 / spin-1/2 pair with one listed chain, "
-                "direct three-body node + resonant chains with a spin-1 / spin-1/2 final particle: densities at p vs Lambda p, one generator at a time; get_swap_factor vs signature model for all permutations of 2..4 names; "
+                "direct three-body node + resonant chains with a spin-1 / spin-1/2 final particle, three-body node with a decaying daughter (4-body): densities at p vs Lambda p, one generator at a time; get_swap_factor vs signature model for all permutations of 2..4 names; "
                 "excluded: events with a vertex within 1e-6 rad of collinear (open finding, fixed reproducer); "
                 "distinct = distinct (config, transform, event)")
     common.theorem_stage(ctx)
@@ -385,11 +389,13 @@ def run(ctx):
     permutation_cases(ctx, rnd, "identical3", cfg, p4, cases)
     # three identical SPIN-1/2 particles, one listed chain: the signs of the exchanged amplitudes (3-cycles are EVEN) and the frame
     mf = {"B": 0.5, "C": 0.5, "D": 0.5}; M0 = 3.6
-    res = {"R_BC": {"pair": "R_BC", "J": 1, "P": 1, "mass": 1.6, "width": 0.2}}
+    # (R with J^P = 1^- : a 1^+ state does not couple to two identical fermions - L even, S = 1 is symmetric - and the correctly
+    # antisymmetrised density is identically zero)
+    res = {"R_BC": {"pair": "R_BC", "J": 1, "P": -1, "mass": 1.6, "width": 0.2}}
     cfg = ampkit.three_body_config(M0, mf, res, top=(0.5, 1), fin={k: (0.5, -1) for k in "BCD"}, data_opts={"identical_particles": [["B", "C", "D"]]})
     p4 = ampkit.gen_events(M0, mf, nev, rnd.randrange(10 ** 6))
     permutation_cases(ctx, rnd, "idfermion3", cfg, p4, cases)
-    metamorphic(ctx, rnd, "idfermion3", cfg, p4, cases, swap=("B", "D"))
+    metamorphic(ctx, rnd, "idfermion3", cfg, p4, cases, swap=("B", "D"), light=True)
     # identical particles WITH spin, only one of the equivalent chains listed (A->R+C, R->B+D with B, C identical): the other one
     # exists only as the exchange term, so both must refer the spin of B and C to frames fixed by the particle's own momentum
     for J, JR in ((1, 1), (0.5, 0.5)):
@@ -397,14 +403,26 @@ def run(ctx):
         res = {"R_BD": {"pair": "R_BD", "J": JR, "P": 1, "mass": 1.3, "width": 0.2}}
         cfg = ampkit.three_body_config(M0, mf, res, top=(1, -1), fin={"B": (J, -1), "C": (J, -1), "D": (0, -1)}, data_opts={"identical_particles": [["B", "C"]]})
         p4 = ampkit.gen_events(M0, mf, nev, rnd.randrange(10 ** 6))
-        metamorphic(ctx, rnd, "idspin_onechain_J%s" % str(J).replace(".", ""), cfg, p4, cases, swap=("B", "C"))
+        metamorphic(ctx, rnd, "idspin_onechain_J%s" % str(J).replace(".", ""), cfg, p4, cases, swap=("B", "C"), light=True)
     # direct three-body node interfering with resonant chains, spinning final particle; declared first (it is the alignment
     # reference of every final particle) and last (it is aligned to the resonant chains)
     for JB, JA, first in (((1, 1, True), (0.5, 0.5, False)) if quick else ((1, 1, True), (0.5, 0.5, False), (1, 1, False), (0.5, 0.5, True), (1, 2, True))):
         cfg, M0, mf = direct3_config(JB, JA, first)
         p4 = ampkit.gen_events(M0, mf, nev, rnd.randrange(10 ** 6))
-        metamorphic(ctx, rnd, "direct3_JB%s_JA%s_%s" % (str(JB).replace(".", ""), str(JA).replace(".", ""), "first" if first else "last"), cfg, p4, cases)
+        metamorphic(ctx, rnd, "direct3_JB%s_JA%s_%s" % (str(JB).replace(".", ""), str(JA).replace(".", ""), "first" if first else "last"), cfg, p4, cases, light=True)
         ctx.sample({"config_tag": "direct3", "decay": cfg["decay"]}, cap=10)
+    # a daughter of the direct three-body node decays further ([A->R1+D+E], R1->B+C), interfering with (R1 R2): the azimuth of the
+    # R1 decay has to be measured from the x axis the node gives R1 (the in-plane one).  The node's couplings G_mu are free (no
+    # parity relation), so inversion is not asserted for this 4-body decay
+    mf = {"B": 0.14, "C": 0.14, "D": 0.49, "E": 0.49}; M0 = 3.1
+    for JB in (0, 1):
+        cfg = {"data": {"dat_order": ["B", "C", "D", "E"]},
+               "decay": {"A": [["R1", "D", "E"], ["R1", "R2"]], "R1": ["B", "C"], "R2": ["D", "E"]},
+               "particle": {"$top": {"A": {"J": 1, "P": -1, "mass": M0}},
+                            "$finals": {k: {"J": (JB if k == "B" else 0), "P": -1, "mass": mf[k]} for k in "BCDE"},
+                            "R1": {"J": 1, "P": -1, "mass": 0.77, "width": 0.15}, "R2": {"J": 1, "P": -1, "mass": 1.02, "width": 0.05}}}
+        p4 = ampkit.gen_tree_events((("B", "C"), ("D", "E")), mf, M0, nev, rnd.randrange(10 ** 6))
+        metamorphic(ctx, rnd, "node3_sub_JB%d" % JB, cfg, p4, cases, parity_ok=False, light=True)
     swap_sign_cases(ctx, rnd)
     collinear_reproducer(ctx)
     for c in cases[:: max(1, len(cases) // 4)]:
@@ -414,10 +432,15 @@ def run(ctx):
     res_.update(common.coq_cases(ctx, "c01g", GHEADER, [c[:3] for c in GCASES], per_file=2, case_timeout=120))
     res_.update(common.coq_cases(ctx, "c01s", SHEADER, [c[:3] for c in SCASES], per_file=40, case_timeout=60))
     cases = cases + VCASES + GCASES + SCASES
+    bad_by_scenario = {}
     for cid, stmt, tac, meta in cases:
         if res_[cid] != "OK":
+            key = "%s:%s" % (meta["layer"], cid.split("_e")[0])
+            bad_by_scenario[key] = bad_by_scenario.get(key, 0) + 1
             ctx.fail(meta["layer"], cid, "layer %s does not check (%s)" % (meta["layer"], res_[cid]), inp=meta,
                      site="frame:" + meta["layer"] + ":" + str(meta.get("transform", "")), fingerprint=meta["layer"])
+    if bad_by_scenario:
+        print("C01 failing cases by scenario: " + "; ".join("%s x%d" % kv for kv in sorted(bad_by_scenario.items())), flush=True)
     return common.finish(ctx, search=search, technique=TECHNIQUE, extra_assumptions=[
         "cascades with spin: rotation invariance of one topology is a theorem (C01_cascade_rotation_invariant) whose geometric hypothesis (the SU(2) relation between the first-vertex "
         "angles before/after and the azimuth shift of the next vertex) is certified on the code's own angles (layer geometry); PARTIAL: several topologies interfering (alignment "
